@@ -166,14 +166,11 @@ class eap(packet_base):
         self.payload_len = 0
         self.parsed = True
 
-        if self.code == self.REQUEST_CODE:
-            (self.type,) \
-                = struct.unpack('!B', raw[self.MIN_LEN:self.MIN_LEN + 1 ])
-            # not yet implemented
-        elif self.code == self.RESPONSE_CODE:
-            (self.type,) \
-                = struct.unpack('!B', raw[self.MIN_LEN:self.MIN_LEN + 1 ])
-            # not yet implemented
+        if self.code == self.REQUEST_CODE or self.code == self.RESPONSE_CODE:
+            if dlen > self.MIN_LEN:
+                self.type = raw[self.MIN_LEN]
+            # Type-Data is not interpreted (yet): keep Type + Type-Data as payload
+            self.next = raw[self.MIN_LEN:]
         elif self.code == self.SUCCESS_CODE:
             self.next = None    # Success packets have no payload
         elif self.code == self.REQUEST_CODE:
